@@ -262,6 +262,9 @@ def classes_contract(classes):
             return hit[0]
         for (lo, hi, kind) in classes:
             if eng.ctx.check(st.pc, z3.Not(z3.And(t >= lo, t < hi))) == 'unsat':
+                if kind in ('below', 'above') and FOR_EPOCH_DAYS in eng.intercepts:
+                    # exact: run the real LocalDate::forEpochSeconds, whose forEpochDays call is the C06 contract
+                    return NotImplemented
                 if kind in ('below', 'above'):
                     yt, m, d = eng.fresh('ld_yt', 8), eng.fresh('ld_m', 8), eng.fresh('ld_d', 8)
                     rng = z3.And(z3.UGE(m, 1), z3.ULE(m, 12), z3.UGE(d, 1), z3.ULE(d, 31))
